@@ -74,8 +74,23 @@ def run(contract_modules, names=None, procs=None, opts=None):
     procs = procs or min(16, max(1, len(jobs)))
     if procs == 1 or len(jobs) == 1:
         return [_job(j) for j in jobs], ex
-    with mp.get_context('spawn').Pool(procs) as pool:
-        reports = pool.map(_job, jobs, chunksize=1)
+    # a worker that dies or hangs must not hang the check: per-job results with an overall deadline
+    budget = float(os.environ.get('PYVC_MAX_SECONDS', '1800'))
+    deadline = time.time() + budget * max(1, -(-len(jobs) // procs)) + 600
+    pool = mp.get_context('spawn').Pool(procs, maxtasksperchild=8)
+    reports = []
+    try:
+        asyncs = [(j, pool.apply_async(_job, (j,))) for j in jobs]
+        for j, a in asyncs:
+            try:
+                reports.append(a.get(timeout=max(1.0, deadline - time.time())))
+            except mp.TimeoutError:
+                reports.append({'contract': j[1], 'case': str(j[2]), 'crash': 'worker timed out / died (no result before the deadline)',
+                                'traceback': ''})
+            except Exception as e:
+                reports.append({'contract': j[1], 'case': str(j[2]), 'crash': f'{type(e).__name__}: {e}', 'traceback': ''})
+    finally:
+        pool.terminate()
     return reports, ex
 
 
